@@ -482,23 +482,24 @@ def gen(rng, tier):
 
     # exhaustive: 2 processes, every interleaving of the first K primitive calls; free path, stale link,
     # link of a live outsider
-    k2 = 10 if quick else 13
-    for l0, dead in ((None, []), (2, [2]), (5, [])):
-        for w in words(2, k2):
+    k2 = 10 if quick else 12
+    for l0, dead in ((2, [2]), (None, []), (5, [])):
+        k = k2 if l0 == 2 or not quick else k2 - 1
+        for w in words(2, k):
             cases.append({"n": 2, "dead": dead, "l0": l0, "sched": w, "cas": False})
     # 3 processes
-    k3 = 6 if quick else 9
+    k3 = 6 if quick else 8
     for l0, dead in ((None, []), (3, [3])):
         for w in words(3, k3):
             cases.append({"n": 3, "dead": dead, "l0": l0, "sched": w, "cas": False})
     # repair simulation (atomic compare-and-remove in the stale path), stale link
     sim = list(words(2, k2))
     if quick:
-        sim = rng.sample(sim, 300)
+        sim = rng.sample(sim, 200)
     for w in sim:
         cases.append({"n": 2, "dead": [2], "l0": 2, "sched": w, "cas": True})
     # random long schedules: 2-5 processes, bursts, dead pids among the scheduled ones, any initial link
-    for _ in range(400 if quick else 10000):
+    for _ in range(300 if quick else 5000):
         n = rng.randrange(1, 6)
         dead = sorted(rng.sample(range(n + 3), rng.randrange(0, 3)))
         l0 = rng.choice([None] + list(range(n + 3)))
@@ -560,10 +561,10 @@ SPEC = Spec(
     describe=lambda c: _describe(c),
     histogram=_hist,
     case_timeout=20.0,
-    rule="every interleaving (word over the pids) of the first 10 (quick) / 13 (thorough) primitive calls of 2 "
-         "processes each running `while True: if lock(): unlock()`, for a free path, a stale link and a live "
-         "outsider's link; the same for 3 processes and 6 / 9 calls (free, stale); the stale 2-process words again "
-         "under the repair simulation (300 sampled in quick); random schedules of up to 70 steps for 1-5 processes "
+    rule="every interleaving (word over the pids) of the first 10 (quick) / 12 (thorough) primitive calls of 2 "
+         "processes each running `while True: if lock(): unlock()`, for a stale link, and of the first 9 / 12 for a "
+         "free path and a live outsider's link; the same for 3 processes and 6 / 8 calls (free, stale); the stale 2-process words again "
+         "under the repair simulation (200 sampled in quick); random schedules of up to 70 steps for 1-5 processes "
          "with dead pids; non-trivial = some lock() returned True and some symlink met EEXIST; distinct by "
          "(case, observation)",
     trusted=["hand-written model coq/C50/Model.v (tied by this correspondence run only)",
